@@ -29,7 +29,10 @@ def theorem_names():
 
 # ---------------------------------------------------------------- texts
 
-POOL = []
+# texts every run starts with (they recur across sessions): string literals that span lines, tokens at the very end of the input
+SEED_TEXTS = ['let msg = "first line\nsecond line";\nlet z = 1;\n', 'let t = {a = "x\n\ny", b = "tail\n"};\n', 'let s = "ends without newline"',
+              'let m = "a\r\nb";\r\nlet n = 2;\r\n']
+POOL = list(SEED_TEXTS)
 
 
 def gen_text(rng, docnames, me):
@@ -137,7 +140,9 @@ def range_problem(text, rng_):
     a = pos_problem(text, rng_["start"])
     if a:
         return "start at " + a
-    b = pos_problem(text, rng_["end"], end=True)
+    # only a ONE-character range may end one past the line end (a mark at the end of a line / of the input); a longer range must end inside
+    one_wide = rng_["end"]["line"] == rng_["start"]["line"] and rng_["end"]["character"] - rng_["start"]["character"] == 1
+    b = pos_problem(text, rng_["end"], end=one_wide)
     if b:
         return "end at " + b
     if (rng_["end"]["line"], rng_["end"]["character"]) < (rng_["start"]["line"], rng_["start"]["character"]):
@@ -248,10 +253,26 @@ def check_ranges(what, ranges, open_docs, root, known):
             raise Problem("%s reports a range outside the document: %s" % (what, pr), range=r, text=text, uri=uri)
 
 
+def missing_import_target(text, root, docname, loc):
+    """is this location the zero range of a file that an `import "<path>"` of the requesting document names and that does not exist?"""
+    z = loc["range"]
+    if (z["start"]["line"], z["start"]["character"], z["end"]["line"], z["end"]["character"]) != (0, 0, 0, 0):
+        return False
+    if not loc["uri"].startswith("file://"):
+        return False
+    target = os.path.normpath(loc["uri"][len("file://"):])
+    base = os.path.dirname(os.path.join(root, docname))
+    for m in re.finditer(r'import\s+"((?:[^"\\]|\\.)*)"', text):
+        if os.path.normpath(os.path.join(base, m.group(1))) == target and not os.path.exists(target):
+            return True
+    return False
+
+
 def range_problem_tokenizer_units(text, r):
     """the same test in the tokenizer's units: lines end at LF only, columns are UTF-8 byte counts"""
     ls = text.split("\n")
-    for key, extra in (("start", 0), ("end", 1)):
+    one_wide = r["end"]["line"] == r["start"]["line"] and r["end"]["character"] - r["start"]["character"] == 1
+    for key, extra in (("start", 0), ("end", 1 if one_wide else 0)):
         ln, ch = r[key]["line"], r[key]["character"]
         if ln >= len(ls) or ch > len(ls[ln].encode("utf-8")) + extra:
             return True
@@ -309,6 +330,10 @@ def run_session(job):
                     ranges.append((uri(d), res["range"]))
                 elif kind == "definition" and res:
                     for loc in (res if isinstance(res, list) else [res]):
+                        if text_of(loc["uri"], open_docs, root) is None and missing_import_target(open_docs.get(uri(d), ""), root, d, loc):
+                            # listed known-finding class (pinned by the suite): the zero location of an import whose file does not exist
+                            known.append("definition-missing-import-target: " + os.path.basename(loc["uri"]))
+                            continue
                         ranges.append((loc["uri"], loc["range"]))
                 elif kind == "completion" and res:
                     for it in (res["items"] if isinstance(res, dict) else res):
@@ -495,7 +520,7 @@ def run(tier, seed):
             elif m and (d[0]["range"]["start"]["line"], d[0]["range"]["start"]["character"]) != (int(m.group(1)) - 1, int(m.group(2)) - 1):
                 real.append({"why": "the syntax diagnostic is not at the position the parser reports", "detail": {"text": t, "parser": first, "diagnostics": d}})
         elif "ok" in pr:
-            synt = [x for x in d if re.match(r"(Expected |Invalid Token|Unexpected |ParseError|Not a )", x["message"]) and "but got" not in x["message"]]
+            synt = [x for x in d if re.match(r"(Expected |Invalid Token|Unexpected |ParseError|Not a (float|symbol character|Boolean|Comment|Bareword|String|DIGIT|Punctuation|Empty)\b)", x["message"]) and "but got" not in x["message"]]
             if synt and not any("Expected" in x["message"] and ("int" in x["message"] or "str" in x["message"]) for x in synt):
                 real.append({"why": "a syntax diagnostic for a text the parser accepts", "detail": {"text": t, "diagnostics": synt}})
     # ---- a text the compiler builds gets no diagnostics
@@ -532,6 +557,14 @@ def run(tier, seed):
     cov["traces_validated_against_impl"] = len(jobs)
     ck.assumptions = ["a range is inside the document when its start is a position of the text (UTF-16 units, LF/CRLF/CR line ends) and its end is at most one unit past the line end",
                       "files on disk do not change during a session", "messages are well-formed JSON-RPC with valid parameter types"]
+    miss = known_lines.pop("definition-missing-import-target", 0)
+    cov["definition_missing_import_target_reports"] = miss
+    if miss:
+        what2 = ("go-to-definition on a name bound to `import \"<path>\"` answers with a location in <path> although no such file is open or on disk")
+        if ck.is_known("C20-definition-missing-import-target"):
+            ck.known_finding("C20-definition-missing-import-target", "%s (%d reports this run)" % (what2, miss))
+        else:
+            real.append({"why": what2, "detail": {"reports": miss}})
     if known_lines:
         what = ("positions are reported in the tokenizer's units (byte columns, lines ending at LF only), which leave the document in the "
                 "protocol's units (UTF-16, CR alone ends a line) on lines with non-ASCII text or lone CR")
